@@ -361,4 +361,24 @@ def _is_ub_check_chain(fn, l):
     return hit_assert
 
 
-RULES = [("R18.1", r18_1), ("R18.2", r18_2), ("R18.3", r18_3), ("R18.4", r18_4), ("R18.5", r18_5)]
+def r18_6(ctx):
+    """publish-once: with shared access (&self) the cache pointer is written only by compare-exchange; an
+    unconditional store/swap overwrites a decoding another thread has just published (lost update: that
+    decoding is never freed, or a reader keeps a pointer the owner will not free)"""
+    prog = ctx.prog()
+    n = 0
+    writers = ("store", "swap", "fetch_update")
+    for fn in prog.fns.values():
+        if fn.crate != "sonic_rs":
+            continue
+        for b, t in fn.calls():
+            nm = t["callee"].rsplit("::", 1)[-1]
+            if nm in writers and ("Atomic::<*mut T>" in t["callee"] or "AtomicPtr" in t["callee"]):
+                n += 1
+                ctx.ob("R18.6", f"{fn.id}:{nm}", False, fn.loc(t["ln"]),
+                       f"AtomicPtr::{nm} on a publish-once cache from a function with shared access: a concurrent publication is overwritten (its decoding leaks / is freed twice)")
+    cas = len(cas_sites(prog))
+    ctx.ob("R18.6", "publication-only-by-compare-exchange", n == 0, "", f"{cas} compare-exchange publication sites, {n} unconditional stores/swaps on AtomicPtr caches")
+
+
+RULES = [("R18.1", r18_1), ("R18.2", r18_2), ("R18.3", r18_3), ("R18.4", r18_4), ("R18.5", r18_5), ("R18.6", r18_6)]
